@@ -713,6 +713,9 @@ func genericParse(f int, text string) (*doc, error, bool) {
 		if err := val.Err(); err != nil {
 			return nil, err, false
 		}
+		if val.Null() == nil {
+			return nil, nil, true // the whole text denotes null (e.g. `{ null }`): not a mapping
+		}
 		if err := val.Validate(cue.Concrete(true)); err != nil {
 			// disjunctions, references to other fields, unresolved values: valid CUE but not data
 			return nil, nil, true
@@ -1012,7 +1015,7 @@ func gen(r *coqfmt.Rng, n int, tier string) []json.RawMessage {
 func mainHarness() {
 	driver.Main(driver.Engine{
 		Prop: "C13", CoqImport: "Dials.Check.C13Check", CoqRun: "run_cases",
-		Rule: "random config types whose fields all carry dials tags (1/8 also carry json/yaml/toml tags; nested structs, *struct, []struct, in 1/3 of the types embedded structs / *structs (also embedded inside embedded), scalars of every integer width, bool, string, durations, time.Time (also *time.Time, []time.Time, map[string]time.Time), net.IP, a TextUnmarshaler struct, slices, string-keyed maps, sets when wrapped, user pointers); one abstract document per type (random subset of keys, unknown keys, shuffled order, durations as strings or integer nanoseconds, timestamps over years 0000-9999 with fractions and offsets and the zero instant, boundary integers, quoting-heavy strings; in 1/4 of the cases one ill-typed / out-of-range / malformed value planted) rendered as JSON, YAML, TOML and Cue and decoded by the four real decoders through static.StringSource: every outcome is compared with the model decoder and the strict specification decoder; types with embedded structs are also decoded by decoders/yaml with FlattenAnonymous from a document written the flattened way (case Flat: model = type rewrite + regrouping, specification = direct reading); struct types with one key on two fields must make the YAML decoder return an error [direct oracle]; plus single-token corruptions of each rendering (delete, duplicate, replace, splice of any token kind of the format, scalar kind change, truncate) with the library's own generic parse as oracle (error => the decoder must fail [direct oracle]; success => the decoder must agree with the specification on the re-abstracted tree); non-trivial: agree cases with >=2 keys and nesting depth >=2, flat cases with an embedded struct and >=2 keys, corrupt cases the library accepts; distinct = distinct (case kind, case state, format, corruption state)",
+		Rule: "random config types whose fields all carry dials tags (1/8 also carry json/yaml/toml tags; nested structs, *struct, []struct, in 1/3 of the types embedded structs / *structs (also embedded inside embedded), scalars of every integer width, bool, string, durations, time.Time (also *time.Time, []time.Time, map[string]time.Time), net.IP, a TextUnmarshaler struct, slices, string-keyed maps, sets when wrapped, user pointers); one abstract document per type (random subset of keys, unknown keys, shuffled order, durations as strings or integer nanoseconds, timestamps over years 0000-9999 with fractions and offsets and the zero instant, boundary integers, quoting-heavy strings; in 1/4 of the cases one ill-typed / out-of-range / malformed value planted) rendered as JSON, YAML, TOML and Cue - two renderings in three drawing among the alternative spellings each format has for the SAME data (string escapes \\uXXXX / \\UXXXXXXXX / \\xXX / \\/, single- / double-quoted / plain / literal-block YAML scalars, TOML basic / literal / multi-line strings, Cue raw and multi-line strings, quoted vs bare keys, integers in hex / octal / binary / with digit separators / signs / Cue's K multiplier, YAML 1.1 boolean words, flow vs block collections, TOML inline tables vs [tables] and [[arrays of tables]], Cue a: b: c shorthand and top-level braces, datetime separators, insignificant blanks, blank lines and comments) - and decoded by the four real decoders through static.StringSource: every outcome is compared with the model decoder and the strict specification decoder; types with embedded structs are also decoded by decoders/yaml with FlattenAnonymous from a document written the flattened way (case Flat: model = type rewrite + regrouping, specification = direct reading); struct types with one key on two fields must make the YAML decoder return an error [direct oracle]; plus single-token corruptions of each rendering (delete, duplicate, replace, splice of any token kind of the format, scalar kind change, truncate) with the library's own generic parse as oracle (error => the decoder must fail [direct oracle]; success => the decoder must agree with the specification on the re-abstracted tree); non-trivial: agree cases with >=2 keys and nesting depth >=2, flat cases with an embedded struct and >=2 keys, corrupt cases the library accepts; distinct = distinct (case kind, case state, format, corruption state)",
 		Gen:  gen, Run: run,
 	})
 }
